@@ -15,7 +15,7 @@
 (* (SlimAPI): ks, vals, hasvals, o, R (retained indexes), rp (position of  *)
 (* key i in R or 0), nodes (Model table), valset.                          *)
 (***************************************************************************)
-EXTENDS SlimScan
+EXTENDS SlimRender
 
 Report(l, code, bad) ==
   IF bad = {} THEN TRUE
@@ -160,6 +160,21 @@ ModesDrift(e) ==
      LET o == ComboTab[m] d == IF o.dd THEN 2 ELSE 1 IN
      e.ans[m].err = "" /\ e.ans[m].pan = "" /\
      e.ans[m].gets[j] # ModelGet(e.keys, nd[d], o, e.vals, e.hasvals, e.qs[j])}
+
+\* ---- String() (C19) ---------------------------------------------------------
+\* e.lines: the tokenised rendering; e.dn: node count by the harness's own decoder
+RenderBad(c, e) ==
+  LET n == Len(e.lines) IN
+  (IF e.pan # "" THEN {"panic"} ELSE {})
+  \cup (IF e.pan = "" /\ e.bad # 0 THEN {"unparsable"} ELSE {})
+  \cup (IF e.pan = "" /\ e.bad = 0 /\ (n # e.dn \/ {e.lines[x][2] : x \in 1..n} # 0..(e.dn - 1))
+        THEN {"each-node-once"} ELSE {})
+  \cup (IF e.pan = "" /\ e.bad = 0 /\
+           [x \in 1..Len(SelectSeq(e.lines, LAMBDA ln : ln[5] = 1)) |-> SelectSeq(e.lines, LAMBDA ln : ln[5] = 1)[x][6]]
+             # [p \in 1..Len(c.R) |-> V(c, c.R[p])]
+        THEN {"leaf-values"} ELSE {})
+RenderDrift(c, e) ==
+  IF e.pan = "" /\ e.bad = 0 /\ e.lines # ModelRender(c.nodes, c.o, c.vals, c.hasvals) THEN {"render"} ELSE {}
 
 \* ---- Stat (C18) -------------------------------------------------------------
 StatBad(c, e) ==
